@@ -62,10 +62,10 @@ func propTable() map[string]PropSpec {
 	t["C07"] = PropSpec{
 		ID: "C07", Pkg: coordPkg, NativeDir: "coordinator",
 		Quick:    []HarnessRun{H("VScaleDown", 6, 2, 1), H("VScaleDown", 6, 3, 1), H("VCycle", 12, 1, 1, 0), H("VCycle", 8, 2, 0, 0), H("VCycle", 6, 2, 1, 32)},
-		Thorough: []HarnessRun{H("VScaleDown", 6, 2, 2), H("VCycle", 12, 1, 1, 2), H("VCycle", 4, 4, 0, 8)},
+		Thorough: []HarnessRun{H("VScaleDown", 6, 2, 2), H("VCycle", 12, 1, 1, 2)},
 		Required: []string{"scaledown.end", "c07.scalecall", "scaledown.moved"},
 		Prefixes: []string{"C07."},
-		Bounds:   "every ChangeScale argument of whole cycles at (S,K) = (1,1), (2,0), (2,1) without relief, with symbolic idle instants against a symbolic clock; tryScaleDown lemma at (2,1), (3,1); thorough adds the lemma at (2,2), the cycle (1,1) with failing scale requests and (4,0) with all shards in sync",
+		Bounds:   "every ChangeScale argument of whole cycles at (S,K) = (1,1), (2,0), (2,1) without relief, with symbolic idle instants against a symbolic clock; tryScaleDown lemma at (2,1), (3,1); thorough adds the lemma at (2,2) and the cycle (1,1) with failing scale requests",
 		Assume:   append([]string{"time.Now: first reading arbitrary in [0,2^60), each later reading adds an arbitrary step in [0,2^50] ns; a shard whose idle time expires during the cycle is exempt from the keeps-used clause"}, wfAssumptions...),
 		Outside:  cycleOutside,
 	}
@@ -179,10 +179,10 @@ func propTable() map[string]PropSpec {
 	t["C06"] = PropSpec{
 		ID: "C06", Pkg: coordPkg, LoadPkgs: []string{"tkestack.io/kvass/pkg/sidecar"}, NativeDir: "coordinator",
 		Quick:    []HarnessRun{H("VCycle", 12, 1, 1, 0), H("VCycle", 8, 2, 1, 40), {Entry: "VUpdateTarget", Pkg: "tkestack.io/kvass/pkg/shard", Args: []int{2}, Cosim: 4}, L("VLoop", 8, 2, 1, 6, 1)},
-		Thorough: []HarnessRun{{Entry: "VUpdateTarget", Pkg: "tkestack.io/kvass/pkg/shard", Args: []int{3}, Cosim: 4}, L("VLoop", 8, 3, 1, 7, 1), L("VLoop", 4, 2, 1, 7, 2)},
+		Thorough: []HarnessRun{{Entry: "VUpdateTarget", Pkg: "tkestack.io/kvass/pkg/shard", Args: []int{3}, Cosim: 4}, L("VLoop", 8, 3, 1, 7, 1), L("VLoop", 4, 2, 1, 7, 2), {Entry: "VLoop", Args: []int{3, 1, 8, 2}, Subst: swr, Unwind: 40, Cosim: 4, Timeout: 30 * time.Minute}},
 		Required: []string{"c06.lone", "c06.duplicate", "shard.update.keys.same", "loop.fault", "loop.end"},
 		Prefixes: []string{"C06.", "C01.shard.update.", "C03.loop.", "C01.c.loop."},
-		Bounds:   "multi-cycle layer: the closed loop of C03 (S=2, thorough 3; K=1) with one fault at cycle 0 or 1 on any shard - a lost target POST, a shard not ready for one cycle, a sidecar restarted from its store - followed by fault-free cycles: converged within H=6 (7) cycles; thorough also two faults (the second one or two cycles after the first, any shard, any kind) at S=2 within 7 cycles; single-cycle progress lemmas from the states faults leave behind (a lone in_transfer copy; two copies on in-sync shards in every state / load / counter combination) on whole cycles at (S,K) = (1,1) and (2,1) with all shards in sync and relief off",
+		Bounds:   "multi-cycle layer: the closed loop of C03 (S=2, thorough 3; K=1) with one fault at cycle 0 or 1 on any shard - a lost target POST, a shard not ready for one cycle, a sidecar restarted from its store - followed by fault-free cycles: converged within H=6 (7) cycles; thorough also two faults (the second one or two cycles after the first, any shard, any kind) at S=2 within 7 cycles and at S=3 within 8 cycles (405 260 paths); single-cycle progress lemmas from the states faults leave behind (a lone in_transfer copy; two copies on in-sync shards in every state / load / counter combination) on whole cycles at (S,K) = (1,1) and (2,1) with all shards in sync and relief off",
 		Assume:   wfAssumptions,
 		Outside:  append([]string{"more than two faults per run, a first fault later than cycle 1, K>=2 in the closed loop", "a shard removed by scaling as an injected fault (scale-down happens only as the coordinator's own decision in the idle-time variant)"}, cycleOutside...),
 	}
